@@ -54,6 +54,7 @@ type Contract struct {
 	Ifaces   map[string]string
 	MayNil   []string
 	Inline   bool
+	Extend   bool // this block adds clauses to the contract of the same function declared in another file
 	UnrollIn []UnrollIn // loops of expanded callees that are unrolled (callee display-name suffix, loop ordinal, bound)
 	PreferInt bool // verify in mathematical-integer mode first (callee contracts are mode-agnostic then)
 	Expand   []string // callees (display-name suffixes) whose body is expanded in this function although they have a contract
@@ -76,7 +77,7 @@ type Contract struct {
 	Impls    []string        // keys of the implementing methods
 }
 
-var clauseHead = regexp.MustCompile(`^(unroll-in|prefer-int|expand|abstract|keys|check|mode|ghost|requires|ensures|modifies|loop|bound|iface|maynil|inline|trusted|panics-if|nosafety|maxpaths|alias|decreases)\b(.*)$`)
+var clauseHead = regexp.MustCompile(`^(extend|unroll-in|prefer-int|expand|abstract|keys|check|mode|ghost|requires|ensures|modifies|loop|bound|iface|maynil|inline|trusted|panics-if|nosafety|maxpaths|alias|decreases)\b(.*)$`)
 var tagRe = regexp.MustCompile(`^\s*\[([^\]]+)\]\s*(.*)$`)
 
 // ParseContractFile parses the //@ lines of one file. pkgPath is the import path of its package.
@@ -343,6 +344,8 @@ func (c *Contract) addClause(head, rest, where string) error {
 		c.MayNil = append(c.MayNil, strings.Fields(rest)...)
 	case "inline":
 		c.Inline = true
+	case "extend":
+		c.Extend = true
 	case "unroll-in":
 		f := strings.Fields(rest)
 		if len(f) != 3 {
